@@ -350,7 +350,7 @@ const c07Rule = "rapid draws infix expressions (depth <= 4 nesting levels of par
 
 func TestC07(t *testing.T) {
 	hx.Run(t, hx.Prop[exprCase]{
-		ID: "C07", Sub: "expr", Rule: c07Rule, Checks: hx.Scale(20000, 1000000),
+		ID: "C07", Sub: "expr", Rule: c07Rule, Checks: hx.Scale(20000, 8000000),
 		Gen: genExprCase, Judge: judgeExprCase,
 	})
 }
